@@ -614,7 +614,8 @@ class StmtsMixin:
         h.vars[name] = self.havoc_val(v, name, keep_len)
         nv = h.vars[name]
         if not isinstance(nv.shape, ConcS):
-            st.assume(V.wf(nv))
+            from .quant import deep_wf
+            st.assume(deep_wf(self, nv))
 
     def havoc_val(self, v: Val, name, keep_len=False):
         if isinstance(v.shape, ConcS):
